@@ -19,7 +19,7 @@ RULE = (
     'subtracted from every step, first frame kept).  Non-trivial = at least two species, reference set a strict '
     'subset of the atoms; distinct = SHA-1 of (walk, species, argument form).'
 )
-RULE += ' Added in rounds 6-10: a further drift() query for another reference set on the same trajectory; nearly static crystals with a common drift of 1e-10..1e-8 per frame; collections with repeated names; a non-reference atom with NaN coordinates. Round 12: "none" also spelled as None / empty tuple / empty list / empty string arguments (reference = every atom, or a loud refusal). Round 14: hydrogen atoms given as H / D / T isotopes (symbol H). Round 13: a hop of ~0.4 cell against a reference step of -0.15 (relative step beyond half a cell), examined on the returned object before any representation switch.'
+RULE += ' Added in rounds 6-10: a further drift() query for another reference set on the same trajectory; nearly static crystals with a common drift of 1e-10..1e-8 per frame; collections with repeated names; a non-reference atom with NaN coordinates. Round 12: "none" also spelled as None / empty tuple / empty list / empty string arguments (reference = every atom, or a loud refusal). Round 16: selections as a list of ~100 element names (all but the others present) and as dict keys. Round 14: hydrogen atoms given as H / D / T isotopes (symbol H). Round 13: a hop of ~0.4 cell against a reference step of -0.15 (relative step beyond half a cell), examined on the returned object before any representation switch.'
 ASSUMPTIONS = [
     'steps (including the injected drift) stay below 0.45 cell so that minimum-image steps are the true steps',
     'tolerances: residual drift 1e-12, positions 1e-9 (circular)',
@@ -50,6 +50,9 @@ def teardown(ctx):
     _mon.detach_all()
 
 
+ALL_PRESENT = [()]
+
+
 def as_form(rng, names, form):
     names = list(names)
     if form == 'str' and len(names) == 1:
@@ -58,6 +61,14 @@ def as_form(rng, names, form):
         return tuple(names)
     if form == 'set':
         return set(names)
+    if form == 'long':
+        # every element of the periodic table except the others present (fixed_species=[el.symbol for el in Element if ...])
+        from pymatgen.core import Element
+
+        present_other = set(ALL_PRESENT[0]) - set(names)
+        return [e_.symbol for e_ in Element if e_.symbol not in present_other and e_.symbol not in ('D', 'T')]
+    if form == 'keys':
+        return {n_: True for n_ in names}.keys()
     if form == 'repeated':
         # a collection that names a species more than once, with unequal multiplicities (e.g. a per-atom list
         # [sp.symbol for sp in structure.species if ...]) and in arbitrary order
@@ -109,7 +120,8 @@ def run_unit(unit, rng, ctx):
     mode = str(rng.choice(['fixed', 'floating', 'none'], p=[0.4, 0.45, 0.15]))
     k = int(rng.integers(1, len(symbols)))
     chosen = [str(x) for x in rng.choice(symbols, size=k, replace=False)]
-    form = str(rng.choice(['str', 'list', 'tuple', 'set', 'repeated']))
+    ALL_PRESENT[0] = tuple(symbols)
+    form = str(rng.choice(['str', 'list', 'tuple', 'set', 'repeated', 'long', 'keys']))
     if mode == 'fixed':
         ref_symbols = set(chosen)
         kwargs = {'fixed_species': as_form(rng, chosen, form)}
